@@ -400,6 +400,84 @@ def decomposition(facts, res):
     res.instance(R, "model size", "rules/decomp.py", "%d ordered pairs of leaf cells examined" % n)
 
 
+def guarded_probes(facts, res):
+    """C01.2 (probes): in the group wrapper a condition that reads a cell of a group at a running position - `f(G.getCellSpacialIndex(i))`
+    in a loop or branch condition - is preceded, in the same short-circuit conjunction, by the test of i against G's own number of cells.
+    A scan bounded by anything else (a literal, the number of children per cell) stops before it has found what it looks for when the group
+    holds more cells than that bound, and reads past the group's end when it holds fewer."""
+    R = "C01.2.wrapper-walk"
+    n = 0
+    cls = "TbfGroupKernelInterface"
+    for fn in facts.methods_of(cls):
+        b = tbf.body(fn)
+        if b is None or fn.get("inst"):
+            continue
+        tbf.link_parents(b)
+        fm = stages.FnModel(facts, fn)
+        conds = []
+        for x in walk(b):
+            k = x.get("k")
+            if k in ("WhileStmt", "DoStmt"):
+                c = kids(x)[0] if k == "WhileStmt" else kids(x)[-1]
+                conds.append((x, c))
+            elif k == "ForStmt" and len(kids(x)) >= 2 and kids(x)[1] is not None:
+                conds.append((x, kids(x)[1]))
+            elif k == "IfStmt":
+                c = [y for y in kids(x) if y.get("k") != "DeclStmt"]
+                if c:
+                    conds.append((x, c[0]))
+        for st, cond in conds:
+            def conj(e):
+                e = strip(e)
+                if e.get("k") == "BinaryOperator" and e.get("op") == "&&":
+                    return conj(kids(e)[0]) + conj(kids(e)[1])
+                return [e]
+            parts = conj(cond)
+            for i_, part in enumerate(parts):
+                for call in walk(part):
+                    if call.get("k") in ("CallExpr", "CXXMemberCallExpr") and tbf.callee_name(call) in ("getCellSpacialIndex", "getLeafSpacialIndex") and tbf.call_base(call) is not None and len(tbf.call_args(call)) == 1:
+                        g = strip(tbf.call_base(call))
+                        ix = strip(tbf.call_args(call)[0])
+                        if ix.get("k") != "DeclRefExpr" or g.get("k") != "DeclRefExpr":
+                            continue
+                        if ix.get("did") in fm.loop_vars and st.get("k") == "ForStmt":
+                            continue          # a counted loop's own variable: its bound is the loop's
+                        n += 1
+                        cnt = "getNbCells" if tbf.callee_name(call) == "getCellSpacialIndex" else "getNbLeaves"
+                        ok = False
+                        for prev in parts[:i_]:
+                            pv = strip(prev)
+                            if pv.get("k") == "BinaryOperator" and pv.get("op") in ("!=", "<"):
+                                a0, b0 = strip(kids(pv)[0]), strip(kids(pv)[1])
+                                for u, v in ((a0, b0), (b0, a0)):
+                                    if u.get("did") == ix.get("did") and v.get("k") in ("CallExpr", "CXXMemberCallExpr") and tbf.callee_name(v) == cnt and tbf.call_base(v) is not None and strip(tbf.call_base(v)).get("did") == g.get("did"):
+                                        ok = True
+                        if not ok:
+                            # guarded by an enclosing loop / branch condition, the position not having moved since
+                            def is_guard(pv):
+                                pv = strip(pv)
+                                if pv.get("k") == "BinaryOperator" and pv.get("op") in ("!=", "<"):
+                                    a0, b0 = strip(kids(pv)[0]), strip(kids(pv)[1])
+                                    for u, v in ((a0, b0), (b0, a0)):
+                                        if u.get("did") == ix.get("did") and v.get("k") in ("CallExpr", "CXXMemberCallExpr") and tbf.callee_name(v) == cnt and tbf.call_base(v) is not None and strip(tbf.call_base(v)).get("did") == g.get("did"):
+                                            return True
+                                return False
+                            for a_ in tbf.ancestors(st):
+                                if a_.get("k") in ("WhileStmt", "IfStmt", "ForStmt"):
+                                    ac = kids(a_)[0] if a_.get("k") == "WhileStmt" else ([y for y in kids(a_) if y.get("k") != "DeclStmt"][0] if a_.get("k") == "IfStmt" else kids(a_)[1])
+                                    if ac is not None and any(is_guard(pv) for pv in conj(ac)):
+                                        moved = [y for y in walk(a_) if ((y.get("k") == "UnaryOperator" and y.get("op") in ("++", "--")) or (y.get("k") in ("CompoundAssignOperator", "BinaryOperator") and y.get("op", "").endswith("=") and y.get("op") not in ("==", "!=", "<=", ">=")))
+                                                 and strip(kids(y)[0]).get("did") == ix.get("did") and (ac.get("e", 0) if ac.get("l", [0, 0])[1] == y["l"][1] else 0, y["l"][1], y.get("b", 0)) > (0, ac["l"][1], ac.get("b", 0)) and (y["l"][1], y.get("b", 0)) < (call["l"][1], call.get("b", 0))]
+                                        if not moved:
+                                            ok = True
+                        res.instance(R, "%s probe@%d" % (fn["qname"], call["l"][1]), facts.loc(call), "%s.%s(%s) in a condition, guarded by %s != %s.%s(): %s" % (g.get("name"), tbf.callee_name(call), ix.get("name"), ix.get("name"), g.get("name"), cnt, ok))
+                        if not ok:
+                            res.violation(R, tbf.rel(facts.path_of(call)), fn["qname"], "probe:%s[%s]@%d" % (g.get("name"), ix.get("name"), call["l"][1]), call["l"][1],
+                                          "the condition `%s` reads cell %s of '%s' without first testing %s against %s.%s(): a scan bounded by something else stops before reaching the cell it looks for when the group holds more cells than that bound (children are then attached to the wrong parent) and reads past the end of the group when it holds fewer" % (facts.ntext(cond)[:110], ix.get("name"), g.get("name"), ix.get("name"), g.get("name"), cnt))
+    res.floor(R + ".probes", n, 2, "conditions that read a group's cell at a running position")
+    return n
+
+
 def routing(facts, res, classes):
     R = "C01.5.list-routing"
     n = 0
@@ -450,7 +528,15 @@ def run(res, tier):
         c12.no_tree_derived_state(facts, cls, res, R="C01.6.stateless-executor")
     stateful = len(res.violations) > before
     n1 = up_down(facts, res, CORE_EXECUTORS)
-    n2 = wrapper_walk(facts, res)
+    before2 = len(res.violations)
+    guarded_probes(facts, res)
+    probed = len(res.violations) > before2
+    try:
+        n2 = wrapper_walk(facts, res)
+    except AnalysisBroken:
+        if not probed:
+            raise
+        n2 = 2       # the start positions moved into the helper reported above
     partition(facts, res)
     sorted_search(facts, res)
     res.rule("C01.7 mapper exits: the path condition of every return taken before the list is walked implies that no listed source index lies inside any group's index interval (implication decided over all models with indices 0..4, <=2 interactions, <=2 sorted disjoint groups); the single-tree overloads forward (list, groups, working group, same groups, callback) unconditionally")
